@@ -762,6 +762,310 @@ def renamed_many_part(check):
         return
 
 
+ACR_STEMS = ["id", "url", "api", "http", "db", "ip", "io", "ui", "uuid", "sql", "os", "tcp", "a", "x", "qr", "cpu", "json", "tls"]
+ACR_FILL = ["User", "To", "Target", "Source", "Of", "Group", "Key", "Map", "By", "Last", "V2", "Is"]
+ACR_POSITIONS = ["field-name", "struct-name", "alias-name", "enum-name", "unit-variant", "tuple-variant", "struct-variant", "tag-key",
+                 "variant-field-name", "field-type", "payload-type", "alias-type", "variant-field-type", "everywhere"]
+ACR_RESERVED = {"Wrapper", "Pair", "Holder", "Plain", "Other", "String", "Vec", "Option", "HashMap", "Box", "Self", "T", "L", "R"}
+
+
+def acr_pascal(entry):
+    """typeshare's to_pascal_case (rename.rs) on an ASCII string: the spelling of an `uppercase_acronyms` entry that is looked for"""
+    allup = not any("a" <= c <= "z" for c in entry)
+    out, cap = "", True
+    for c in entry:
+        if c == "_":
+            cap = True
+        elif cap:
+            out += c.upper()
+            cap = False
+        else:
+            out += c.lower() if allup else c
+    return out
+
+
+def acr_list(rng):
+    """an `uppercase_acronyms` list: 1-4 ASCII entries of 1-4 letters in upper / lower / capitalised / mixed case, often with one entry
+    a prefix of another, sometimes with the same acronym twice in two spellings; returns (entries, [labels])"""
+    def spell(stem):
+        how = rng.choice(["upper", "lower", "capitalised", "mixed"])
+        if how == "upper":
+            return stem.upper(), how
+        if how == "lower":
+            return stem, how
+        if how == "capitalised":
+            return stem[0].upper() + stem[1:], how
+        return "".join(c.upper() if rng.random() < 0.5 else c for c in stem), how
+    n = rng.choice([1, 1, 2, 2, 3, 4])
+    entries, labels = [], set()
+    for stem in rng.sample(ACR_STEMS, n):
+        e, how = spell(stem)
+        entries.append(e)
+        labels.add("entry-" + how)
+        labels.add("entry-of-%d-letters" % len(e))
+    r = rng.random()
+    if len(entries) < 4 and r < 0.35:
+        longer = [e for e in entries if len(e) > 1]
+        if longer:
+            e = rng.choice(longer)
+            entries.insert(rng.randrange(len(entries) + 1), e[:rng.randint(1, len(e) - 1)])
+            labels.add("one-entry-a-prefix-of-another")
+    elif len(entries) < 4 and r < 0.45:
+        e = rng.choice(entries)
+        entries.append(rng.choice([e.upper(), e.lower(), e]))
+        labels.add("one-acronym-listed-twice")
+    return entries, sorted(labels)
+
+
+def acr_pieces(rng, pats):
+    """the pieces (each starting with a capital) of one name in which a looked-for spelling occurs 0 / 1 / 2 / 3 times: adjacent,
+    separated, overlapping (`Idid`, `IdIdentity`), at the start and at the end, two different entries; returns (pieces, label)"""
+    p = rng.choice(pats)
+    q = rng.choice(pats)
+    f = lambda: rng.choice(ACR_FILL)
+    low = p + rng.choice(["entity", "s", "x", p.lower()])          # followed by a lower-case letter: `Identity`, `Idid`
+    recipes = [
+        ("none", lambda: [f(), f()]),
+        ("none-lower-case-spelling", lambda: [f() + p.lower(), f()]),
+        ("once-at-the-start", lambda: [p, f()]),
+        ("once-at-the-end", lambda: [f(), p]),
+        ("once-in-the-middle", lambda: [f(), p, f()]),
+        ("once-alone", lambda: [p]),
+        ("once-before-a-lower-case-letter", lambda: [f(), low]),
+        ("twice-adjacent", lambda: [p, p]),
+        ("twice-adjacent-inside", lambda: [f(), p, p, f()]),
+        ("twice-separated", lambda: [f(), p, f(), p]),
+        ("twice-start-and-end", lambda: [p, f(), p]),
+        ("twice-overlapping", lambda: [low, p]),
+        ("twice-first-before-a-lower-case-letter", lambda: [low, f(), p]),
+        ("twice-two-entries", lambda: [p, f(), q]),
+        ("twice-far-apart", lambda: [p, f(), f(), f(), f(), p]),
+        ("three-times-adjacent", lambda: [p, p, p]),
+        ("three-times-separated", lambda: [p, f(), p, f(), p]),
+        ("three-times-mixed", lambda: [f(), p, p, f(), q]),
+        ("three-times-with-lower-case-neighbours", lambda: [low, p, low, p]),
+    ]
+    label, make = rng.choice(recipes)
+    return make(), label
+
+
+def go_acronyms_part(check):
+    """Go's `uppercase_acronyms` setting x the names it is applied to.  Lists of 1-4 ASCII entries of 1-4 letters (upper, lower,
+    capitalised and mixed case, one entry a prefix of another, one acronym listed twice) against names in which the looked-for spelling
+    occurs 0 / 1 / 2 / 3 times - adjacent, separated, overlapping (`Idid`), before a lower-case letter (`Identity`), at the start and at
+    the end, two different entries in one name - at every place the Go back end applies the pass: field names, struct / alias / enum
+    names, unit / tuple / struct variant names (the latter inside `<Enum><Variant>Inner`), the serde tag key, fields of struct
+    variants, and whole type expressions (`map[UserId]GroupId`: field types, variant payloads, alias targets) whose type names each
+    hold the spelling 0-2 times.  In-process through the Go generator (no answer within the runner's limit = a failing input) and
+    through the binary with a typeshare.toml: the run ends with output or with a diagnostic, never a panic, a crash or an endless
+    loop; and the output is the model's"""
+    rng = check.rng
+    ncases, ncli = (2400, 48) if check.thorough else (420, 14)
+    g = Gen(rng)
+    ts = [m_path("typeshare")]
+    st, u8 = t_path("String"), t_path("u8")
+    cases = []
+    for k in range(ncases):
+        entries, elabels = acr_list(rng)
+        pats = [x for x in (acr_pascal(e) for e in entries) if x]
+        used = set(ACR_RESERVED)
+
+        def type_name(twice_ok=True):
+            for _ in range(50):
+                pieces, label = acr_pieces(rng, pats)
+                name = "".join(pieces)
+                if name not in used and (twice_ok or max(name.count(x) for x in pats) <= 1):
+                    used.add(name)
+                    return name, label
+            name = "Plain%d" % len(used)
+            used.add(name)
+            return name, "none"
+
+        def field_name():
+            pieces, label = acr_pieces(rng, pats)
+            return "_".join(x[0].lower() + x[1:] for x in pieces), label
+
+        def type_expr():
+            """a type expression over two user types whose names hold the spelling 0-2 times each (and the definitions of those types)"""
+            (a, la), (b, lb) = type_name(rng.random() < 0.3), type_name(rng.random() < 0.3)
+            ta, tb = t_path(a), t_path(b)
+            shapes = [("plain", lambda: ta), ("vec", lambda: t_path("Vec", [ta])), ("option", lambda: t_path("Option", [ta])),
+                      ("map", lambda: t_path("HashMap", [ta, tb])), ("map", lambda: t_path("HashMap", [ta, tb])),
+                      ("map-same", lambda: t_path("HashMap", [ta, ta])), ("map-of-vec", lambda: t_path("HashMap", [st, t_path("Vec", [tb])])),
+                      ("generic", lambda: t_path("Wrapper", [ta])), ("generic-2", lambda: t_path("Pair", [ta, tb])),
+                      ("nested", lambda: t_path("Option", [t_path("HashMap", [ta, t_path("Vec", [t_path("Pair", [tb, ta])])])])),
+                      ("array", lambda: ("array", tb, 3))]
+            shape, mk = rng.choice(shapes)
+            defs = [{"kind": "struct", "attrs": list(ts), "ident": n, "generics": [], "fields": ("named", [field([], "v", u8)])} for n in (a, b)]
+            return mk(), defs, "%s of %s / %s" % (shape, la, lb)
+
+        pos = ACR_POSITIONS[k % len(ACR_POSITIONS)]
+        every = pos == "everywhere"
+        items, labels = [], []
+        generic_defs = [{"kind": "struct", "attrs": list(ts), "ident": "Wrapper", "generics": [("ty", "T")], "fields": ("named", [field([], "inner", t_path("T"))])},
+                        {"kind": "struct", "attrs": list(ts), "ident": "Pair", "generics": [("ty", "L"), ("ty", "R")],
+                         "fields": ("named", [field([], "l", t_path("L")), field([], "r", t_path("R"))])}]
+
+        def pick(here, maker, plain):
+            if every or pos == here:
+                v, label = maker()
+                labels.append("%s: %s" % (here, label))
+                return v
+            return plain
+
+        def pick_type(here):
+            if every or pos == here:
+                ty, defs, label = type_expr()
+                items.extend(defs)
+                labels.append("%s: %s" % (here, label))
+                return ty
+            return st
+
+        # a struct
+        sname = pick("struct-name", type_name, "Holder")
+        fields_ = [field([], pick("field-name", field_name, "count"), pick_type("field-type")), field([], "other", u8)]
+        if every:
+            for _ in range(3):
+                fields_.append(field([], pick("field-name", field_name, "x%d" % len(fields_)), pick_type("field-type")))
+            fields_ = list({f["ident"]: f for f in fields_}.values())
+        items.append({"kind": "struct", "attrs": list(ts), "ident": sname, "generics": [], "fields": ("named", fields_)})
+        # an alias
+        if every or pos in ("alias-name", "alias-type"):
+            items.append({"kind": "alias", "attrs": list(ts), "ident": pick("alias-name", type_name, "Other"), "generics": [], "ty": pick_type("alias-type")})
+        # a unit enum
+        if every or pos in ("enum-name", "unit-variant"):
+            vs = [pick("unit-variant", type_name, "First"), pick("unit-variant", type_name, "Second")]
+            items.append({"kind": "enum", "attrs": list(ts), "ident": pick("enum-name", type_name, "Plain"), "generics": [],
+                          "variants": [{"attrs": [], "ident": v, "fields": ("unit",)} for v in dict.fromkeys(vs)]})
+        # an algebraic enum
+        if every or pos in ("enum-name", "tuple-variant", "struct-variant", "tag-key", "variant-field-name", "payload-type", "variant-field-type"):
+            tag = pick("tag-key", field_name, "type")
+            content = "content" if tag != "content" else "c"
+            vs = [{"attrs": [], "ident": pick("tuple-variant", type_name, "One"), "fields": ("unnamed", [field([], None, pick_type("payload-type"))])},
+                  {"attrs": [], "ident": pick("struct-variant", type_name, "Detailed"),
+                   "fields": ("named", [field([], pick("variant-field-name", field_name, "value"), pick_type("variant-field-type"))])},
+                  {"attrs": [], "ident": "Empty", "fields": ("unit",)}]
+            items.append({"kind": "enum", "attrs": list(ts) + [m_list("serde", [m_nv("tag", lit_s(tag)), m_nv("content", lit_s(content))])],
+                          "ident": pick("enum-name", type_name, "Choice"), "generics": [], "variants": vs})
+        if any(it["ident"] == "Wrapper" or "Wrapper" in render_item(it) or "Pair<" in render_item(it) for it in items):
+            items = generic_defs + items
+        rng.shuffle(items)
+        f = {"attrs": [], "items": items}
+        cfg = {"package": "proto", "type_mappings": {}, "uppercase_acronyms": entries, "no_pointer_slice": rng.random() < 0.3}
+        m, r, texts = l2.requests("go", cfg, [{"crate": "", "file_name": "out", "path": "src/lib.rs", "file": f}], g)
+        # how often a looked-for spelling occurs in one string the pass is applied to (judged on the names / type names in the text)
+        words = set(re.findall(r"[A-Za-z_][A-Za-z0-9_]*", texts[0]))
+        words |= {acr_pascal(w) for w in words}
+        most = max(w.count(x) for w in words | set(texts[0].split("\n")) for x in pats)
+        cases.append(dict(m=m, r=r, text=texts[0], cfg=cfg, pos=pos, labels=labels, elabels=elabels, most=most,
+                          label="uppercase_acronyms = %s (looked for: %s); %s" % (json.dumps(entries), ", ".join(pats), "; ".join(labels))))
+        check.count("go-acronyms-programs")
+        check.count("go-acronyms-position-" + pos)
+        check.count("go-acronyms-list-of-%d" % len(entries))
+        for l_ in elabels:
+            check.count("go-acronyms-" + l_)
+        check.count("go-acronyms-most-occurrences-in-one-name-%s" % (most if most < 3 else "3-or-more"))
+        for l_ in labels:
+            check.count("go-acronyms-name-" + l_.split(": ", 1)[1].split(" of ")[0])
+
+    def toml(cfg):
+        return "[go]\npackage = \"proto\"\nuppercase_acronyms = %s\n%s" % (json.dumps(cfg["uppercase_acronyms"]),
+                                                                            "no_pointer_slice = true\n" if cfg["no_pointer_slice"] else "")
+
+    def replay_of(c):
+        return {"lang": "go", "config": c["cfg"], "what": c["label"], "files": {"proj/typeshare.toml": toml(c["cfg"]), "proj/src/lib.rs": c["text"]},
+                "replay": "write the files, then: timeout 30 typeshare --lang go -c proj/typeshare.toml -o out.go proj/src"}
+
+    def through_binary(c, timeout=30):
+        with Scratch() as sc:
+            sc.write("proj/src/lib.rs", c["text"])
+            sc.write("proj/typeshare.toml", toml(c["cfg"]))
+            r = run_cli(["--lang", "go", "-c", sc.path("proj/typeshare.toml"), "-o", sc.path("out.go"), sc.path("proj/src")], cwd=sc.dir, timeout=timeout)
+            written = os.path.exists(sc.path("out.go")) and os.path.getsize(sc.path("out.go")) > 0
+        problem = None
+        if r["timed_out"]:
+            problem = "did not terminate within %d s (no output, no diagnostic)" % timeout
+        elif "panicked at" in r["err"]:
+            lines = r["err"].splitlines()
+            at = [i for i, l in enumerate(lines) if "panicked at" in l][0]
+            problem = "exit status %s, panicked: %s" % (r["rc"], " ".join(l.strip() for l in lines[at:at + 2]))
+        elif r["rc"] not in (0, 1):
+            problem = "exit status %s" % r["rc"]
+        elif r["rc"] == 1 and not r["err"].strip():
+            problem = "exit status 1 without any diagnostic"
+        elif r["rc"] == 0 and not written:
+            problem = "exit status 0 but no output was written"
+        return problem, {"rc": r["rc"], "stderr": r["err"][-1500:], "output_written": written}
+
+    # ---- the binary with a typeshare.toml, over every number of occurrences (first: a run that does not end is seen here at the
+    # price of one time-out, with the exact input)
+    by_most = {}
+    for i in range(len(cases)):
+        by_most.setdefault(min(cases[i]["most"], 3), []).append(i)
+    for v in by_most.values():
+        rng.shuffle(v)
+    chosen = []
+    while len(chosen) < ncli and any(by_most.values()):
+        for mo in (2, 3, 1, 0):
+            if by_most.get(mo) and len(chosen) < ncli:
+                chosen.append(by_most[mo].pop())
+    for i in chosen:
+        c = cases[i]
+        problem, seen = through_binary(c)
+        check.saw(("go-acronyms-cli", c["text"], json.dumps(c["cfg"], sort_keys=True)), nontrivial=c["most"] >= 1)
+        check.count("go-acronyms-cli-rc=%s" % seen["rc"])
+        check.count("go-acronyms-cli-most-occurrences-%s" % (c["most"] if c["most"] < 3 else "3-or-more"))
+        if problem:
+            check.violation("typeshare --lang go -c typeshare.toml with %s: %s" % (c["label"], problem), case=replay_of(c), impl=seen, failing_input=True)
+            return
+    # ---- in-process, in small batches: the first batch with a request that is not answered ends the part.  The runner's answers
+    # are lost when it has to be killed, so which request of the batch it was is found by running the batch's programs through the binary
+    rans = []
+    for i in range(0, len(cases), 60):
+        batch = cases[i:i + 60]
+        part = runner([c["r"] for c in batch])
+        rans += part
+        bad = [j for j, a in enumerate(part) if "panic" in a and not known_site(a, batch[j]["cfg"])]
+        if not bad:
+            continue
+        a = part[bad[0]]
+        check.count("go-acronyms-in-process-panic")
+        how = "no answer (endless loop)" if a.get("hang") else "process killed" if a.get("crash") else "panic at " + str(a["panic"])
+        if a.get("hang") or a.get("crash"):
+            for c in batch:
+                problem, seen = through_binary(c)
+                if problem:
+                    check.violation("typeshare --lang go -c typeshare.toml with %s: %s (found in-process first: a batch of %d programs with this one: %s)"
+                                    % (c["label"], problem, len(batch), how), case=replay_of(c),
+                                    impl={"binary": seen, "in_process": {k_: str(v)[:600] for k_, v in a.items()}}, failing_input=True)
+                    return
+            c = batch[bad[0]]
+            check.violation("go, in-process, a batch of %d programs (the first: %s): %s; each of them ends through the binary" % (len(batch), c["label"], how),
+                            case=dict(replay_of(c), batch=[x["r"] for x in batch]), impl={k_: str(v)[:1500] for k_, v in a.items()}, failing_input=True)
+            return
+        c = batch[bad[0]]
+        problem, seen = through_binary(c)
+        check.violation("go, in-process, %s: %s; the binary on the same files: %s" % (c["label"], how, problem or "exit status %s" % seen["rc"]),
+                        case=replay_of(c), impl={"in_process": {k_: str(v)[:1500] for k_, v in a.items()}, "binary": seen}, failing_input=True)
+        return
+    for c, a in zip(cases, rans):
+        check.saw(("go-acronyms", c["text"], json.dumps(c["cfg"], sort_keys=True)), nontrivial=c["most"] >= 1)
+        check.count("go-acronyms-in-process-%s" % ("ok" if "ok" in a else "panic" if "panic" in a else "error"))
+        if "panic" in a:
+            check.known(known_site(a, c["cfg"]), {"lang": "go", "config": c["cfg"], "source": c["text"], "panic": a["panic"]})
+    # ---- the same text as the model writes
+    mans = [l2.norm(a) for a in model([c["m"] for c in cases])]
+    for c, ma, ra in zip(cases, mans, (l2.norm(a) for a in rans)):
+        if ma == ra:
+            check.count("go-acronyms-model-agrees")
+            continue
+        check.count("go-acronyms-model-differs")
+        check.violation("go generation differs from the model with %s: %s" % (c["label"], corpus_describe(ma, ra)),
+                        case=replay_of(c), impl=ra, model=ma, failing_input=False,
+                        broken="correspondence L2 Go acronym pass (Go.convertAcronyms; theorems TsV.C07_Backends.*)")
+        return
+
+
 def corpus_describe(m, r):
     import corpus
     return corpus.describe(m, r)
@@ -792,6 +1096,8 @@ def run(check):
         odd_attrs_part(check)
     if not check.has_failing():
         const_forms_part(check)
+    if not check.has_failing():
+        go_acronyms_part(check)
     check.rule += ("; 14 spellings of the input roots (relative, single file, several / overlapping / missing / empty roots) x "
                    "{-o, -d} from inside the crate directory; trees of 130-257 (thorough 513) annotated files in 7 crates - more results than the walker's bounded channel "
                    "holds - clean and with one unsupported item in the middle, single- and multi-file mode, 1/2/8/default walker "
@@ -799,4 +1105,7 @@ def run(check):
                    "; programs of 20-80 annotated items of every kind in shuffled / sorted / nearly sorted declaration order, 0-8 of them "
                    "with a container-level serde(rename) to a name that sorts before / between / after the Rust names, differs in case, "
                    "equals another item's Rust name or swaps two names, over 1-3 files of 1-2 crates: in-process (six back ends, single-file "
-                   "and folder mode), the binary (-o, -d) and the model")
+                   "and folder mode), the binary (-o, -d) and the model"
+                   "; Go with uppercase_acronyms lists of 1-4 ASCII entries (upper / lower / mixed case, prefixes of one another) against field, type, "
+                   "variant and tag names and whole type expressions holding a looked-for spelling 0-3 times (adjacent, separated, overlapping, "
+                   "at both ends): in-process, the binary with a typeshare.toml, and the model")
